@@ -1,0 +1,26 @@
+//go:build verif
+
+package keys
+
+// Contracts for the keys plugin, read by /verif's gvc (comment-only file).
+
+//@ func (g *gen) Add(name string, typs []types.Type) (r string, err error)
+//@ param typs: len=0,1,2,3
+//@ param name: classes=Ident
+
+//@ func (g *gen) Generate(typs []types.Type) (err error)
+//@ param typs: len=1
+
+//@ func (g *gen) genFuncFor(typ *types.Map) (err error)
+//@ emits: decls
+//@ serves: keys len=1 typ=typs[0]
+//@ o-sig: (m $typ) (r []$key(typ))
+//@ o-pure
+//@ o-ensures: [every-key] forall k val :: (k in m) ==> elemOf(k, r)
+//@ o-ensures: [only-keys] forall j int :: 0 <= j && j < len(r) ==> r[j] in m
+//@ o-ensures: [exactly-once] len(r) == len(m) && forall a int, b int :: 0 <= a && a < b && b < len(r) ==> r[a] != r[b]
+//@ o-ensures: [fresh] r != nil
+//@ o-loop: 1: invariant len(keys) == $count && keys != nil
+//@ o-loop: 1: invariant forall j int :: 0 <= j && j < len(keys) ==> visited(keys[j])
+//@ o-loop: 1: invariant forall k val :: visited(k) ==> elemOf(k, keys)
+//@ o-loop: 1: invariant forall a int, b int :: 0 <= a && a < b && b < len(keys) ==> keys[a] != keys[b]
